@@ -67,6 +67,14 @@ Theorem multi_delivers_all : forall (specs : list (bool * nat)) (Pl : list (list
 Proof. exact multi_delivers_all_l. Qed.
 Print Assumptions multi_delivers_all.
 
+(* (5a) A member that panics does not block the composite: with the Unlock calls as the source places them (GENERATED
+   fact composite_unlocks_deferred) the lock is free after the panic, so the producer that recovered — and every
+   other producer — can take its next step as in (5). *)
+Theorem composite_lock_released_on_panic : forall (s : mstate) (t : tid),
+  mlock (mpanic composite_unlocks_deferred s t) = None /\ mpcs (mpanic composite_unlocks_deferred s t) t = MIdle.
+Proof. intros s t. unfold mpanic. simpl. split; [reflexivity|]. unfold upd. now rewrite Nat.eqb_refl. Qed.
+Print Assumptions composite_lock_released_on_panic.
+
 (* (5b) WHO the members are (complements (5), where the member list is the composite's own value).  Go slices over a
    store of arrays; the caller passes a slice it OWNS (any content, any spare capacity) to the constructor and goes on
    using it: for every script of constructions of any number of composites from that slice, Appends to them, writes
